@@ -1,4 +1,5 @@
 import Srctools.Model.C20
+import Srctools.Model.B64
 /-!
 # C20 — the binary scene codec (BVCD) of choreo.py, as coded
 
@@ -7,9 +8,11 @@ byte-level encoder / decoder over `List UInt8`, generic in the string pool: the 
 the function `ix` that `add_to_pool` computes (string ↦ pool index), the decoder the pool list.
 
 * float32 fields (times, ranges, distance) are carried as their bit patterns (`Nat < 2³²`);
-* quantised fields carry, on the writer's side, the exact value of the float64 product
-  `value * K` (K = 255, 4096) as a fraction `QVal`; the writer stores `min(hi, max(0, round p))`,
-  the reader returns `code / K`, represented as the product fraction `(code, 1)`;
+* quantised fields carry the float64 value Python holds (`B64.Val`, exact IEEE-754 binary64):
+  the writer computes the float64 product `value * K` (K = 255.0, 4096.0; `B64.mul`, one
+  rounding), rounds it half-to-even to an integer as CPython's `round` does on the exact value of
+  that double, and clamps it to the code range; the reader returns the float64 quotient
+  `code / K` (`B64.div`);
 * `None` of a decoder = any exception of the Python reader (short read, unknown enum value,
   pool index out of range).  Negative `<h` indices index the pool from its end, as Python does.
 * the encoder is total: counts and codes are reduced modulo their field width where
@@ -20,8 +23,24 @@ Core only (linked into `drv_c20`).
 namespace C20.Bvcd
 open C20
 
-/-- exact value of the float64 product `value * K` the writer rounds, as a fraction. -/
-abbrev QVal := Int × Nat
+/-- a quantised field's value as Python holds it: a float64. -/
+abbrev QVal := B64.Val
+
+/-- the float64 product `value * K`, as an exact fraction (units of 2^-1074); a non-finite
+product (for which `round` raises) is given as 0 — excluded by `sceneOK`. -/
+def prodFrac (K : Nat) (v : QVal) : Int × Nat :=
+  match B64.mul v (B64.ofNatVal K) with
+  | .fin s m => ((if s then -(m : Int) else (m : Int)), B64.U)
+  | _ => (0, 1)
+
+/-- `min(hi, max(0, round(value * K)))`. -/
+def encV (K hi : Nat) (v : QVal) : Nat := encQ hi (prodFrac K v).1 (prodFrac K v).2
+
+/-- `code / K` as a float64. -/
+def decV (K : Nat) (b : Nat) : QVal := (B64.div (B64.ofNatVal b) (B64.ofNatVal K)).getD .nan
+
+/-- `round(value * K)` is defined: the product is finite. -/
+def prodFinite (K : Nat) (v : QVal) : Bool := (B64.mul v (B64.ofNatVal K)).isFinite
 
 def le16 (n : Nat) : Bytes := [UInt8.ofNat n, UInt8.ofNat (n / 256)]
 
@@ -132,7 +151,7 @@ def Extra.typeCode : Extra → Nat
 
 /-! ## encoder -/
 
-def encQ8 (v : QVal) : UInt8 := u8 (encQ 255 v.1 v.2)
+def encQ8 (v : QVal) : UInt8 := u8 (encV 255 255 v)
 
 def flat {α : Type} (enc : α → Bytes) (l : List α) : Bytes := (l.map enc).flatten
 
@@ -146,7 +165,7 @@ def encTag (ix : Bytes → Nat) (t : Tag) : Bytes := le16 (ix t.name) ++ [encQ8 
 
 /-- `AbsoluteTag.export_binary` record (`<hH`, factor 4096). -/
 def encAbsTag (ix : Bytes → Nat) (t : Tag) : Bytes :=
-  le16 (ix t.name) ++ le16 (encQ 65535 t.value.1 t.value.2)
+  le16 (ix t.name) ++ le16 (encV 4096 65535 t.value)
 
 def encTags (ix : Bytes → Nat) (ts : List Tag) : Bytes := u8 ts.length :: flat (encTag ix) ts
 def encAbsTags (ix : Bytes → Nat) (ts : List Tag) : Bytes := u8 ts.length :: flat (encAbsTag ix) ts
@@ -259,7 +278,8 @@ def rdList {α : Type} (r : Rd α) : Nat → Rd (List α)
   | 0 => Rd.pure []
   | n + 1 => r.bind fun a => (rdList r n).bind fun as => Rd.pure (a :: as)
 
-def code (b : Nat) : QVal := ((b : Int), 1)
+def code (b : Nat) : QVal := decV 255 b
+def code4096 (b : Nat) : QVal := decV 4096 b
 
 def rdRampSample : Rd RampSample :=
   rdU32.bind fun t => rdU8.bind fun v => Rd.pure { time := t, value := code v }
@@ -271,7 +291,7 @@ def rdTag (pool : List Bytes) : Rd Tag :=
   (rdStr pool).bind fun n => rdU8.bind fun v => Rd.pure { name := n, value := code v }
 
 def rdAbsTag (pool : List Bytes) : Rd Tag :=
-  (rdStr pool).bind fun n => rdU16.bind fun v => Rd.pure { name := n, value := code v }
+  (rdStr pool).bind fun n => rdU16.bind fun v => Rd.pure { name := n, value := code4096 v }
 
 def rdTags (pool : List Bytes) : Rd (List Tag) := rdU8.bind fun n => rdList (rdTag pool) n
 def rdAbsTags (pool : List Bytes) : Rd (List Tag) := rdU8.bind fun n => rdList (rdAbsTag pool) n
@@ -347,12 +367,15 @@ def decodeScene (pool : List Bytes) (bs : Bytes) : Option Scene := (rdScene pool
 
 /-! ## what survives: the projection the codec applies -/
 
-def qv (hi : Nat) (v : QVal) : QVal := code (encQ hi v.1 v.2)
+/-- reader after writer on one value: `round(v * 255.0)` clamped, divided by 255.0 -/
+def qv (v : QVal) : QVal := code (encV 255 255 v)
+/-- the same for absolute tags: factor 4096.0, 16-bit code -/
+def qv4096 (v : QVal) : QVal := code4096 (encV 4096 65535 v)
 
-def qRampSample (s : RampSample) : RampSample := { s with value := qv 255 s.value }
-def qFlexSample (s : FlexSample) : FlexSample := { s with value := qv 255 s.value }
-def qTag (t : Tag) : Tag := { t with value := qv 255 t.value }
-def qAbsTag (t : Tag) : Tag := { t with value := qv 65535 t.value }
+def qRampSample (s : RampSample) : RampSample := { s with value := qv s.value }
+def qFlexSample (s : FlexSample) : FlexSample := { s with value := qv s.value }
+def qTag (t : Tag) : Tag := { t with value := qv t.value }
+def qAbsTag (t : Tag) : Tag := { t with value := qv4096 t.value }
 def qFlex (f : Flex) : Flex :=
   { f with mag := f.mag.map qFlexSample, dir := f.dir.map (·.map qFlexSample) }
 
